@@ -21,6 +21,7 @@ struct TpdoModel {
 struct Emit { uint64_t tick; uint32_t id; uint8_t dlc; uint8_t d[8]; bool operator<(const Emit &o) const { if (tick != o.tick) return tick < o.tick; if (id != o.id) return id < o.id; if (dlc != o.dlc) return dlc < o.dlc; return memcmp(d, o.d, 8) < 0; } bool operator==(const Emit &o) const { return tick == o.tick && id == o.id && dlc == o.dlc && !memcmp(d, o.d, 8); } };
 
 struct TpdoRun : NodeEnv {
+    std::vector<int16_t> appTmr; bool unjudged = false;
     int m = M_PREOP; std::vector<TpdoModel> T; std::vector<ObjDef> objs; std::vector<Emit> exp; std::map<uint32_t, uint32_t> val;   // model copy of the mapped objects' values
     uint32_t &mv(uint16_t idx, uint8_t sub) { return val[(uint32_t)idx << 8 | sub]; }
     TpdoRun(const Plan &p, Cov &c, bool vb) : NodeEnv(p, c, vb) {}
@@ -103,6 +104,17 @@ struct TpdoRun : NodeEnv {
         if (k == "sync" && o.arg(0, 1) > 1) { int64_t cnt = std::min<int64_t>(o.arg(0), 2000); cov.hit("long-sync-run"); if (cnt >= 256) cov.hit("sync-run-of-256-or-more"); for (int64_t i = 0; i < cnt && v.ok; i++) op(Op("sync")); return; }   // every SYNC of a run is judged on its own
         size_t mk = w.mark(); uint64_t t0 = now(); exp.clear(); bool judge = true;
         if (k == "obj" || k == "tpdo") return;
+        // F15: the application takes every free timer slot. Capacity is what the property assumes, so from here on nothing is compared -
+        // until the slots are given back, everything has settled, and the closing probe asks for the one thing that must survive: no trigger is lost for good
+        if (k == "fill") { w.cur = 0; int16_t id; while ((id = COTmrCreate(&N()->Tmr, 1000000, 0, [](void *) {}, nullptr)) >= 0) appTmr.push_back(id); (void)CONodeGetErr(N()); unjudged = true; cov.hit("F15-timer-pool-exhausted"); nontrivial = true; return; }
+        if (k == "drain") { w.cur = 0; for (int16_t id : appTmr) (void)COTmrDelete(&N()->Tmr, id); appTmr.clear(); (void)CONodeGetErr(N()); return; }
+        if (k == "liveprobe") {
+            if (!unjudged || !appTmr.empty() || m != M_OP) return; w.tick(0, 3000);   // every inhibit time and every deferred transmission is over
+            for (int n = 0; n < CO_TPDO_N && v.ok; n++) { uint32_t cob = w.raw(0, (uint16_t)(0x1800 + n), 1); uint32_t ty = w.raw(0, (uint16_t)(0x1800 + n), 2); if (!w.ospec(0, (uint16_t)(0x1800 + n), 1) || (cob & 0x80000000u) || ty < 254) continue;
+                size_t mk2 = w.mark(); w.cur = 0; COTPdoTrigPdo(N()->TPdo, (uint16_t)n); w.tick(0, 3000); bool seen = false; for (size_t i = mk2; i < w.evs.size(); i++) if ((w.evs[i].kind == EV_TX || w.evs[i].kind == EV_TXFAIL) && w.evs[i].f.id == (cob & 0x7FF)) seen = true;
+                if (!seen) { fail("tpdo/trigger-lost-after-pool-exhaustion", "TPDO " + std::to_string(n) + " (" + hex(cob & 0x7FF) + ") triggered long after the timer pool had room again: nothing was sent within 3000 ticks"); return; } cov.hit("trigger-served-after-pool-exhaustion"); }
+            return; }
+        if (unjudged) judge = false;
         if (k == "sendfail") { S().sendFail = (int)(o.arg(0) % 4); cov.hit("F5-can-send-failure"); return; }   // the next n frames are refused by the CAN driver: an attempt counts as the transmission, nothing is retried
         if (k == "tick") { w.tick(0, (uint64_t)o.arg(0)); }
         else if (k == "nmt") { uint8_t cs = (uint8_t)o.arg(0); deliver(Frame(0, 2, {cs, 0})); if (cs == 1) enterMode(M_OP); else if (cs == 2) enterMode(M_STOP); else if (cs == 128) enterMode(M_PREOP); else if (cs == 129 || cs == 130) { enterMode(M_PREOP); } }
@@ -195,6 +207,10 @@ Plan gen_tpdo(Rng &r, bool thorough) {
         else if (c < 23) p.ops.push_back(Op("evtime", {(int64_t)r.below(4), r.chance(1, 4) ? 0 : r.pick<int64_t>({1, 2, 3, 5, 10, 20}) * u}));
         else p.ops.push_back(Op("inhtime", {(int64_t)r.below(4), r.pick<int64_t>({0, 1, 5, 10}) * u * 10}));
     }
+    if (r.chance(1, 10)) { // pool exhaustion episode, then the liveness probe
+        p.ops.push_back(Op("nmt", {1})); p.ops.push_back(Op("fill")); int k = (int)r.range(2, 10);
+        for (int i = 0; i < k; i++) { int c = (int)r.below(4); if (c == 0) p.ops.push_back(Op("tick", {r.range(1, 30)})); else if (c == 1) p.ops.push_back(Op("wr", {(int64_t)r.below((uint32_t)nobj), (int64_t)r.below(0x10000) * 65537})); else if (c == 2) p.ops.push_back(Op("trigpdo", {(int64_t)r.below(4)})); else p.ops.push_back(Op("sync")); }
+        p.ops.push_back(Op("drain")); p.ops.push_back(Op("liveprobe")); }
     return p;
 }
 Reg r12({"tpdo", "C12", gen_tpdo, [](const Plan &p, Cov &c, bool vb) { TpdoRun x(p, c, vb); return x.run(); }, nullptr, nullptr});
